@@ -148,12 +148,13 @@ Proof.
     cbn [andb] in H. destruct (existsb (Nat.eqb id) anc) eqn:Ea.
     { injection H as <-. cbn. apply existsb_eqb_In; exact Ea. }
     destruct (xdev && negb top && negb (dev =? rootdev)); [injection H as <-; exact I|].
-    destruct (listing g id); [discriminate|injection H as <-; exact I].
+    destruct (listing g id); [discriminate|injection H as <-].
+    cbn. split; [intros Hi; apply existsb_eqb_In in Hi; congruence|auto].
   - destruct e as [| | |id dev]; cbn [unfold] in H; try (injection H as <-; exact I).
     cbn [andb] in H. destruct (existsb (Nat.eqb id) anc) eqn:Ea.
     { injection H as <-. cbn. apply existsb_eqb_In; exact Ea. }
     destruct (xdev && negb top && negb (dev =? rootdev)); [injection H as <-; exact I|].
-    destruct (listing g id) as [ch|]; [|injection H as <-; exact I].
+    destruct (listing g id) as [ch|]; [|injection H as <-; cbn; split; [intros Hi; apply existsb_eqb_In in Hi; congruence|auto]].
     match type of H with match ?m with _ => _ end = _ => destruct m as [l|] eqn:Em end; [|discriminate].
     injection H as <-. cbn [chain_ok]. split.
     { intros Hi. apply existsb_eqb_In in Hi. congruence. }
